@@ -30,7 +30,8 @@ theorem i2c_write_even (s : I2cSt) (f : Nat → I2cIn) (hf : s.fsm = .write0) (h
     have hb0 : ((i2cSteps s f (2 * j)).bits == 0) = false := by rw [h2]; simp; omega
     have hm : (8 - j + 15) % 16 = 8 - (j + 1) := by omega
     rw [e]
-    simp only [i2cSteps]
+    have e1 : i2cSteps s f (2 * j + 1 + 1) = i2cFsmStep (i2cFsmStep (i2cSteps s f (2 * j)) (f (2 * j))) (f (2 * j + 1)) := rfl
+    rw [e1]
     generalize i2cSteps s f (2 * j) = t at *
     obtain ⟨tf, tscl, tsda, tdata, tack, tbits, tcnt⟩ := t
     simp only at h1 h2 h3 h4 hb0
@@ -46,7 +47,9 @@ theorem i2c_write_bits (s : I2cSt) (f : Nat → I2cIn) (hf : s.fsm = .write0) (h
   obtain ⟨h1, h2, h3, h4⟩ := i2c_write_even s f hf hb j (by omega)
   have hb0 : ((i2cSteps s f (2 * j)).bits == 0) = false := by rw [h2]; simp; omega
   have hbit := shlN_bit7_table s.data hd j hj
-  simp only [i2cSteps]
+  have e1 : i2cSteps s f (2 * j + 1) = i2cFsmStep (i2cSteps s f (2 * j)) (f (2 * j)) := rfl
+  have e2 : i2cSteps s f (2 * j + 2) = i2cFsmStep (i2cSteps s f (2 * j + 1)) (f (2 * j + 1)) := rfl
+  rw [e2, e1]
   generalize i2cSteps s f (2 * j) = t at *
   obtain ⟨tf, tscl, tsda, tdata, tack, tbits, tcnt⟩ := t
   simp only at h1 h2 h3 h4 hb0
@@ -62,7 +65,10 @@ theorem i2c_write_ack (s : I2cSt) (f : Nat → I2cIn) (hf : s.fsm = .write0) (hb
   obtain ⟨h1, h2, h3, h4⟩ := i2c_write_even s f hf hb 8 (by omega)
   have e16 : (2 * 8 : Nat) = 16 := rfl
   rw [e16] at h1 h2 h3 h4
-  simp only [i2cSteps]
+  have e17 : i2cSteps s f 17 = i2cFsmStep (i2cSteps s f 16) (f 16) := rfl
+  have e18 : i2cSteps s f 18 = i2cFsmStep (i2cSteps s f 17) (f 17) := rfl
+  have e19 : i2cSteps s f 19 = i2cFsmStep (i2cSteps s f 18) (f 18) := rfl
+  rw [e19, e18, e17]
   generalize i2cSteps s f 16 = t at *
   obtain ⟨tf, tscl, tsda, tdata, tack, tbits, tcnt⟩ := t
   simp only at h1 h2 h3 h4
